@@ -21,6 +21,121 @@ type EffectRule struct {
 	Why      string   `json:"why"`
 }
 
+// RecoverFirst: an enclosure obligation for code that may panic (user-supplied functions called below): the named
+// function's body starts with its deferred recover - only other defer statements may come before it - so every call the
+// body makes afterwards runs under that recover.
+type RecoverFirst struct {
+	Function string `json:"function"` // key relative to the module, e.g. "ipldutil.traverser.start.func1"
+	Why      string `json:"why"`
+}
+
+func (e *Engine) recoverFirstObligations(rules []RecoverFirst) []*Obligation {
+	var out []*Obligation
+	for _, r := range rules {
+		key := modPath + "/" + r.Function
+		fi := e.funcs[key]
+		o := &Obligation{Name: "effect:recover-first", Fn: key, Kind: "effect", Backend: "ast-scan", Goal: "true", Status: "unsat",
+			Desc: "enclosure: every call of " + r.Function + " runs under its deferred recover (" + r.Why + ")"}
+		if fi == nil || fi.Body == nil {
+			o.Status, o.Raw, o.Goal = "error", "function not found: "+key, "false"
+			out = append(out, o)
+			continue
+		}
+		c := &FnCtx{e: e, fi: fi, info: fi.Pkg.TypesInfo}
+		o.Pos = c.pos(fi.Body.Pos())
+		found := false
+		for _, st := range fi.Body.List {
+			ds, isDefer := st.(*ast.DeferStmt)
+			if isDefer {
+				if lit, ok := ast.Unparen(ds.Call.Fun).(*ast.FuncLit); ok && callsRecover(lit.Body, fi.Pkg.TypesInfo) {
+					found = true
+					break
+				}
+				continue // another deferred call: runs after the recover's function is registered? no - but it makes no call now
+			}
+			// a statement that runs before the recover is registered
+			bad := ""
+			ast.Inspect(st, func(n ast.Node) bool {
+				if _, isLit := n.(*ast.FuncLit); isLit {
+					return false
+				}
+				if call, ok := n.(*ast.CallExpr); ok && bad == "" {
+					if tv, ok := fi.Pkg.TypesInfo.Types[call.Fun]; ok && tv.IsType() {
+						return true
+					}
+					if id, ok := ast.Unparen(call.Fun).(*ast.Ident); ok {
+						if _, isB := fi.Pkg.TypesInfo.Uses[id].(*types.Builtin); isB {
+							return true
+						}
+					}
+					bad = c.pos(call.Pos())
+				}
+				return true
+			})
+			if bad != "" {
+				o.Status = "sat"
+				o.Raw = "a call runs before the deferred recover is in place, at " + bad
+				o.Desc += " — call outside the recover at " + bad
+				o.Pos = bad
+				break
+			}
+		}
+		if !found && o.Status == "unsat" {
+			o.Status = "sat"
+			o.Raw = "no deferred function calling recover() at the top level of the body"
+			o.Desc += " — no deferred recover found"
+		}
+		out = append(out, o)
+	}
+	return out
+}
+
+// Enclosed: a chain of functions from a goroutine root down to the function that runs user-supplied code; the
+// obligation holds when at least one of them registers a deferred recover before making any call, so the user code
+// runs under it whichever of them a maintainer chooses for it.
+type Enclosed struct {
+	Name  string   `json:"name"`
+	Chain []string `json:"chain"` // keys relative to the module, root first
+	Why   string   `json:"why"`
+}
+
+func (e *Engine) enclosedObligations(rules []Enclosed) []*Obligation {
+	var out []*Obligation
+	for _, r := range rules {
+		last := modPath + "/" + r.Chain[len(r.Chain)-1]
+		o := &Obligation{Name: "effect:enclosed(" + r.Name + ")", Fn: last, Kind: "effect", Backend: "ast-scan", Goal: "true", Status: "sat",
+			Desc: "enclosure: user-supplied code reached through " + strings.Join(r.Chain, " -> ") + " runs under a recover registered by one of these functions before it makes any call (" + r.Why + ")",
+			Raw:  "none of the functions on the chain starts with a deferred recover"}
+		for _, rel := range r.Chain {
+			sub := e.recoverFirstObligations([]RecoverFirst{{Function: rel}})
+			if len(sub) == 1 && sub[0].Status == "unsat" {
+				o.Status, o.Raw = "unsat", "recover registered first in "+rel
+				o.Pos = sub[0].Pos
+			}
+			if o.Pos == "" && len(sub) == 1 {
+				o.Pos = sub[0].Pos
+			}
+		}
+		out = append(out, o)
+	}
+	return out
+}
+
+func callsRecover(body *ast.BlockStmt, info *types.Info) bool {
+	hit := false
+	ast.Inspect(body, func(n ast.Node) bool {
+		if call, ok := n.(*ast.CallExpr); ok {
+			if id, ok := ast.Unparen(call.Fun).(*ast.Ident); ok && id.Name == "recover" {
+				if _, isB := info.Uses[id].(*types.Builtin); isB {
+					hit = true
+				}
+			}
+		}
+		return true
+	})
+	return hit
+}
+
 func (e *Engine) effectObligations(rules []EffectRule) []*Obligation {
 	var out []*Obligation
 	for _, r := range rules {
